@@ -170,7 +170,7 @@ def normalize_array_shape_and_access(routine):
                     if isinstance(v.dimensions[i], sym.RangeIndex):
                         start = simplify(v.dimensions[i].start - d.start + 1) if d.start is not None else None
                         stop = simplify(v.dimensions[i].stop - d.start + 1) if d.stop is not None else None
-                        new_dims += [sym.RangeIndex((start, stop, d.step))]
+                        new_dims += [sym.RangeIndex((start, stop, v.dimensions[i].step))]
                     else:
                         start = simplify(v.dimensions[i] - d.start + 1) if d.start is not None else None
                         new_dims += [start]
